@@ -272,7 +272,7 @@ def unmapped_pair(r, rid, case_id, cell, umi, lib='LIB', mx=MX_NLA, seq_len=30, 
 def simulate_library(r, method='nla', contigs=None, n_cells=3, n_sites=10, umi_len=3, umis_per_site=(1, 3), copies=(1, 4),
                      case_id=1, p_reverse=0.5, p_clip=0.2, max_clip=6, p_invalid=0.0, p_umi_neighbour=0.3, p_mismatch=0.2,
                      frag_range=(60, 300), read_len=40, chic_trimmed=True, n_unmapped=0, p_dup_flag=0.0, p_stale=0.0,
-                     site_positions=None, lib='LIB', start_id=1, p_single_end=0.0, umi_with_n=0.0, min_gap=None, frag_len_fn=None, p_hard_clip=0.0):
+                     site_positions=None, lib='LIB', start_id=1, p_single_end=0.0, umi_with_n=0.0, min_gap=None, frag_len_fn=None, p_hard_clip=0.0, p_cycle_shift=0.0):
     """Returns (genome, records, truths{id:truth}).  Sites are spaced so that fragments of different sites may overlap."""
     contigs = contigs or [('chr1', 20000)]
     gen = Genome(r, contigs)
@@ -324,9 +324,12 @@ def simulate_library(r, method='nla', contigs=None, n_cells=3, n_sites=10, umi_l
                 for u in base_umis:
                     for _ in range(r.randint(*copies)):
                         invalid = r.random() < p_invalid
+                        # a copy that lost its first sequenced base (read starts with ATG / ends with CAT); simulated without soft clip
+                        cs_ = bool(p_cycle_shift) and method == 'nla' and not invalid and r.random() < p_cycle_shift
                         fr, tr = make_fragment(
                             gen, r, rid, case_id, method, cell, name, pos, strand, u, frag_len_fn(r) if frag_len_fn else r.randint(*frag_range), r1_len=read_len, r2_len=read_len,
-                            clip=r.randint(1, max_clip) if r.random() < p_clip else 0,
+                            clip=(r.randint(1, max_clip) if r.random() < p_clip else 0) if not cs_ else 0,
+                            cycle_shift=cs_,
                             mismatches=1 if r.random() < p_mismatch else 0, motif_ok=not invalid, chic_trimmed=chic_trimmed,
                             dup_flag=r.random() < p_dup_flag, stale_tags=r.random() < p_stale, lib=lib,
                             single_end=r.random() < p_single_end)
